@@ -141,6 +141,22 @@ def line_at(text, addr):
     return ""
 
 
+def addr_of_line(text, index):
+    """address of the disassembly line with this index (0-based) in text, or None"""
+    pc = None
+    for i, line in enumerate(text.splitlines()):
+        m = re.match(r"^\s*(?:\S+:)?\s*org\s+(\$?)([0-9A-Fa-f]+)", line)
+        if m:
+            pc = int(m.group(2), 16 if m.group(1) else 10)
+            continue
+        m = re.search(r";((?:\s[0-9A-Fa-f]{2})+)\s*$", line)
+        if i == index:
+            return pc if m else None
+        if m and pc is not None:
+            pc += len(m.group(1).split())
+    return None
+
+
 def intervals(addrs):
     """sorted address set -> [(lo, hi)]"""
     out = []
